@@ -113,6 +113,7 @@ def no_stores(st):
 
 
 class FastValidator(CContract):
+    descriptor_is_tuple = True
     properties = ("C03", "C01", "C19")
     own = True
     side_props = {"valid-deref": ("C18",), "bounds": ("C18",)}
@@ -141,7 +142,8 @@ class FastValidator(CContract):
         tinfo = ex.field_array(st, "py_validate")[trait]
         handler = ex.field_array(st, "handler")[trait]
         st = st.assume(trait != NULL, obj != NULL, name != NULL, value != NULL, tinfo != NULL, handler != NULL,
-                       A.is_inst(tinfo, "PyTuple_Type"), self.wf(tinfo, trait, obj, value))
+                       A.is_inst(tinfo, "PyTuple_Type") if self.descriptor_is_tuple else z3.BoolVal(True),
+                       self.wf(tinfo, trait, obj, value))
         info = dict(trait=trait, obj=obj, name=name, value=value, tinfo=tinfo,
                     witness={"value.type": A.type_of(value), "value.is_None": value == A.NONE, "descriptor.len": A.tuple_len(tinfo)})
         return st, [trait, obj, name, value], info
@@ -401,3 +403,146 @@ class ValidateTraitCoerceType(FastValidator):
 
     def covers(self, cx, ov, info):
         return FastValidator.covers(self, cx, ov, info) + [("converts", lambda r, s: z3.BoolVal(any(x[0] == "call" for x in s.trace)))]
+
+
+def handler_call(st, which=0):
+    calls = [r for r in st.trace if r[0] == "call"]
+    return calls[which] if len(calls) > which else None
+
+
+def call_args_are(c, *items):
+    return z3.And(A.tuple_len(c[2]) == len(items), *[A.tuple_item(c[2], z3.IntVal(i)) == v for i, v in enumerate(items)])
+
+
+@register
+class ValidateTraitPython(FastValidator):
+    """the trait's Python validate(object, name, value) decides: called exactly once with these three, its result stored,
+    its exception passed through unchanged."""
+    qualname = "validate_trait_python"
+    descriptor_is_tuple = False          # py_validate is the callable itself
+
+    def wf(self, tinfo, trait, obj, value):
+        return z3.BoolVal(True)
+
+    def spec(self, info, ret, st):
+        calls = [r for r in st.trace if r[0] == "call"]
+        c = calls[0] if calls else None
+        res = st.ghost.get("last_call_result")
+        return [("post:validate-called-exactly-once", z3.BoolVal(len(calls) == 1)),
+                ("post:called-with-object-name-value", z3.And(c[1] == info["tinfo"], call_args_are(c, info["obj"], info["name"], info["value"])) if c else z3.BoolVal(False)),
+                ("post:stores-what-validate-returned", z3.Implies(ret != NULL, ret == res if res is not None else z3.BoolVal(False)))]
+
+    def covers(self, cx, ov, info):
+        return [("accepts", lambda r, s: r != NULL), ("passes-the-error-on", lambda r, s: r == NULL)]
+
+
+@register
+class ValidateTraitFunction(FastValidator):
+    """descriptor (kind, function): function(object, name, value) is called once, its result stored; ANY exception it raises
+    becomes the TraitError of handler.error."""
+    qualname = "validate_trait_function"
+
+    def wf(self, tinfo, trait, obj, value):
+        return A.tuple_len(tinfo) == 2
+
+    def spec(self, info, ret, st):
+        calls = [r for r in st.trace if r[0] == "call"]
+        c = calls[0] if calls else None
+        res = st.ghost.get("last_call_result")
+        return [("post:function-called-exactly-once", z3.BoolVal(len(calls) == 1)),
+                ("post:called-with-object-name-value", z3.And(c[1] == A.tuple_item(info["tinfo"], z3.IntVal(1)),
+                                                              call_args_are(c, info["obj"], info["name"], info["value"])) if c else z3.BoolVal(False)),
+                ("post:stores-what-the-function-returned", z3.Implies(ret != NULL, ret == res if res is not None else z3.BoolVal(False))),
+                ("post:failure-is-TraitError", z3.Implies(ret == NULL, st.exc == EXC["TraitError"]))]
+
+
+@register
+class ValidateTraitCallable(FastValidator):
+    """descriptor (kind,) or (kind, allow_none): a callable is stored as is; None is accepted by the one-element (legacy)
+    descriptor and otherwise iff allow_none is true; everything else is a TraitError."""
+    qualname = "validate_trait_callable"
+
+    def wf(self, tinfo, trait, obj, value):
+        return A.tuple_len(tinfo) >= 1
+
+    def spec(self, info, ret, st):
+        tinfo, value = info["tinfo"], info["value"]
+        n = A.tuple_len(tinfo)
+        truth = z3.Function("truth_result", Obj, INT)(A.tuple_item(tinfo, z3.IntVal(1)))
+        callable_ = z3.Function("callable_check", Obj, z3.BoolSort())(value)
+        accept = z3.If(value == A.NONE, z3.Or(n < 2, truth == 1), info["callable"])
+        undecided = z3.And(value == A.NONE, n >= 2, truth == -1)
+        return [("post:accepts-iff-callable-or-allowed-None", z3.Implies(z3.Not(undecided), (ret != NULL) == accept)),
+                ("post:stores-the-value-itself", same_object(ret, value)),
+                ("post:rejection-is-TraitError", z3.Implies(z3.And(ret == NULL, z3.Not(undecided)), st.exc == EXC["TraitError"]))]
+
+    def c_setup(self, cx, ex, ov):
+        st, args, info = FastValidator.c_setup(self, cx, ex, ov)
+        r = []
+        ex.api.call("PyCallable_Check", [info["value"]], st, lambda v, s: r.append(v) or [])
+        info["callable"] = r[0] != 0 if z3.is_int(r[0]) else r[0]
+        return st, args, info
+
+
+ADAPT = z3.Const("g_adapt", Obj)
+
+
+@register
+class ValidateTraitAdapt(FastValidator):
+    """Supports / AdaptsTo descriptor (kind, type, mode, allow_none).
+    None: accepted iff allow_none.  mode 0: isinstance only.  mode 1 / 2: the adapter of the value if adapt() finds one,
+    else the value itself if it is an instance, else TraitError (mode 1) or the trait's default (mode 2)."""
+    qualname = "validate_trait_adapt"
+    properties = ("C03", "C01", "C19", "C17")
+
+    def configure(self, cx, ex, ov):
+        FastValidator.configure(self, cx, ex, ov)
+        from contracts.c.setattr import install_families
+        install_families(cx)
+        cx.callmethod_hook = error_method_hook
+        cx.globals["adapt"] = ADAPT
+
+    def wf(self, tinfo, trait, obj, value):
+        m = A.tuple_item(tinfo, z3.IntVal(2))
+        return z3.And(A.tuple_len(tinfo) == 4, A.is_inst(m, "PyLong_Type"), A.long_fits(m), ADAPT != NULL,
+                      A.tuple_item(tinfo, z3.IntVal(1)) != NULL, A.tuple_item(tinfo, z3.IntVal(3)) != NULL)
+
+    def spec(self, info, ret, st):
+        tinfo, value = info["tinfo"], info["value"]
+        T = A.tuple_item(tinfo, z3.IntVal(1))
+        mode = A.long_val(A.tuple_item(tinfo, z3.IntVal(2)))
+        allow = z3.Function("truth_result", Obj, INT)(A.tuple_item(tinfo, z3.IntVal(3)))
+        isi = z3.Function("isinstance_result", Obj, Obj, INT)(value, T)
+        calls = [r for r in st.trace if r[0] == "call"]
+        defaults = [r for r in st.trace if r[0] == "default_value_for"]
+        res = st.ghost.get("last_call_result")
+        out = [("post:None-accepted-iff-allow_none", z3.Implies(z3.And(value == A.NONE, allow >= 0), z3.And(
+                    (ret != NULL) == (allow == 1), same_object(ret, value), z3.BoolVal(not calls and not defaults)))),
+               ("post:mode-0-is-a-plain-isinstance-check", z3.Implies(z3.And(value != A.NONE, mode == 0, isi >= 0), z3.And(
+                    (ret != NULL) == (isi == 1), same_object(ret, value), z3.BoolVal(not calls and not defaults)))),
+               ("post:adaptation-is-tried-at-most-once", z3.BoolVal(len(calls) <= 1)),
+               ("post:default-only-in-mode-2", z3.Implies(z3.BoolVal(bool(defaults)), z3.And(mode != 0, mode != 1, value != A.NONE)))]
+        if calls:
+            c = calls[0]
+            out.append(("post:adaptation-is-adapt(value, type, None)", z3.And(c[1] == ADAPT, call_args_are(c, value, T, A.NONE))))
+            if res is not None:
+                out.append(("post:an-adapter-found-is-what-gets-stored", z3.Implies(res != A.NONE, ret == res)))
+                out.append(("post:without-adapter-an-instance-is-stored-as-is", z3.Implies(z3.And(res == A.NONE, isi == 1), ret == value)))
+                out.append(("post:mode-1-without-adapter-or-instance-is-TraitError",
+                            z3.Implies(z3.And(res == A.NONE, isi == 0, mode == 1), z3.And(ret == NULL, st.exc == EXC["TraitError"]))))
+                out.append(("post:mode-2-without-adapter-or-instance-takes-the-default",
+                            z3.Implies(z3.And(res == A.NONE, isi == 0, mode != 1), z3.BoolVal(len(defaults) == 1))))
+        else:
+            out.append(("post:adaptation-skipped-only-for-None-or-mode-0", z3.Or(value == A.NONE, mode == 0, st.exc != 0)))
+        return out
+
+    def c_post(self, cx, ex, ov, info, ret, st):
+        out = [("post:NULL-iff-error-indicator-set", (ret == NULL) == (st.exc != 0))]
+        out += self.spec(info, ret, st)
+        out += own_neutral(st, info, ret)
+        return out
+
+    def covers(self, cx, ov, info):
+        return FastValidator.covers(self, cx, ov, info) + [
+            ("adapts", lambda r, s: z3.And(r != NULL, z3.BoolVal(any(x[0] == "call" for x in s.trace)))),
+            ("defaults", lambda r, s: z3.BoolVal(any(x[0] == "default_value_for" for x in s.trace)))]
